@@ -4,6 +4,7 @@ package checks
 
 import (
 	"context"
+	"crypto/sha256"
 	"encoding/binary"
 	"encoding/json"
 	"fmt"
@@ -55,6 +56,9 @@ func (r CReq) String() string {
 	}
 	switch r.Kind {
 	case "att", "atts", "atts-nokey", "atts-nildata":
+		if len(r.Keys) > 8 {
+			return fmt.Sprintf("%s[%d keys k%d..k%d, each %d->%d]", r.Kind, len(r.Keys), r.Keys[0], r.Keys[len(r.Keys)-1], r.S[0], r.T[0])
+		}
 		var l []string
 		for i, k := range r.Keys {
 			l = append(l, fmt.Sprintf("k%d:%d->%d", k, r.S[i], r.T[i]))
@@ -73,6 +77,18 @@ type CScenario struct {
 	Threads [][]CReq `json:"threads"`
 	// DescKeys makes the bytewise order of the keys the reverse of their index order.
 	DescKeys bool `json:"desc_keys,omitempty"`
+	// Bound (if > 0) replaces the check's preemption bound for this scenario and rules out the unbounded pass
+	// (scenarios with hundreds of scheduling points).
+	Bound int `json:"bound,omitempty"`
+}
+
+// keyRange returns the key indices lo..hi-1.
+func keyRange(lo, hi int) []int {
+	var l []int
+	for i := lo; i < hi; i++ {
+		l = append(l, i)
+	}
+	return l
 }
 
 func att1(k int, s, t uint64) CReq {
@@ -107,7 +123,6 @@ type concEnv struct {
 	rules        *standardrules.Service
 	dir          string
 	nexec        int
-	keyCtr       uint64
 	approver     rules.Service // approve-all stub (no store access), for lock-only scenarios
 	lastVerdicts string
 	cancel       context.CancelFunc
@@ -142,25 +157,46 @@ func (e *concEnv) close() {
 	_ = os.RemoveAll(e.dir)
 }
 
-// freshKeys returns n never-used keys whose bytewise order is the same in every execution of a scenario
-// (ascending in the key index, or descending when desc is set): an implementation may legitimately order its lock
-// acquisition by key bytes, and the explorer must see the same enabled sets when it replays a prefix.
+// freshKeys returns the n keys of a scenario, with every record stored under them removed. The key bytes are the same
+// in every execution (an implementation may order its locks by key bytes, or derive table slots from them, and the
+// explorer must see the same enabled sets when it replays a prefix): two bytes fix the bytewise order (ascending in the
+// key index, or descending when desc is set), the rest is pseudo-random, as real public keys are.
 func (e *concEnv) freshKeys(n int, desc bool) [][]byte {
-	e.keyCtr++
 	keys := make([][]byte, n)
+	var recs [][]byte
 	for i := range keys {
 		k := make([]byte, 48)
-		binary.BigEndian.PutUint64(k[:8], e.keyCtr)
-		binary.BigEndian.PutUint64(k[8:16], uint64(os.Getpid()))
+		k[0] = 0xa5
 		if desc {
-			k[16] = byte(200 - i)
+			binary.BigEndian.PutUint16(k[16:18], uint16(60000-i))
 		} else {
-			k[16] = byte(10 + i)
+			binary.BigEndian.PutUint16(k[16:18], uint16(10+i))
 		}
-		k[47] = 0x7f
+		h := sha256.Sum256(k[:18])
+		copy(k[18:], h[:30])
 		keys[i] = k
+		recs = append(recs, append(append([]byte{}, k...), 0x02), append(append([]byte{}, k...), 0x03))
+	}
+	if err := e.rules.VerifRawDeleteAll(context.Background(), recs); err != nil {
+		panic(err)
 	}
 	return keys
+}
+
+// fmtVerdicts renders a verdict vector; for a large batch: the count and the first positions refused.
+func fmtVerdicts(v []bool) string {
+	if len(v) <= 8 {
+		return fmt.Sprint(v)
+	}
+	nt, firstF := 0, []int{}
+	for i, a := range v {
+		if a {
+			nt++
+		} else if len(firstF) < 4 {
+			firstF = append(firstF, i)
+		}
+	}
+	return fmt.Sprintf("[%d of %d signed, refused at %v]", nt, len(v), firstF)
 }
 
 var concCreds = &checker.Credentials{Client: "client1", RequestID: "r", IP: "10.0.0.1"}
@@ -300,7 +336,7 @@ func linearizable(calls []*callRec, nkeys int, finals []finalRec) (bool, string)
 			if !ok && len(tried) < 6 {
 				var l []string
 				for _, c := range order {
-					l = append(l, fmt.Sprintf("%s=>%v", c.req, verd[c]))
+					l = append(l, fmt.Sprintf("%s=>%s", c.req, fmtVerdicts(verd[c])))
 				}
 				tried = append(tried, strings.Join(l, " ; "))
 			}
@@ -416,7 +452,7 @@ func (e *concEnv) mkScenario(cs CScenario, lockOnly bool, wantLinearizable bool)
 			var fs []sched.Finding
 			var vl []string
 			for _, c := range calls {
-				vl = append(vl, fmt.Sprint(c.approved))
+				vl = append(vl, fmtVerdicts(c.approved))
 			}
 			e.lastVerdicts = strings.Join(vl, "")
 			if x.Deadlock || x.Stuck {
@@ -454,7 +490,7 @@ func (e *concEnv) mkScenario(cs CScenario, lockOnly bool, wantLinearizable bool)
 			if ok, tried := linearizable(lin, nkeys, finals); !ok {
 				var l []string
 				for _, c := range calls {
-					l = append(l, fmt.Sprintf("T%d.%d %s [%d,%d] => %v", c.thread, c.idx, c.req, c.call, c.ret, c.approved))
+					l = append(l, fmt.Sprintf("T%d.%d %s [%d,%d] => %s", c.thread, c.idx, c.req, c.call, c.ret, fmtVerdicts(c.approved)))
 				}
 				fs = append(fs, sched.Finding{Key: "nonlinearizable:" + cs.Name,
 					What: fmt.Sprintf("scenario %s: no serial order explains the outcome: %s; final records %v; serial orders give: %s", cs.Name, strings.Join(l, " ; "), finals, tried)})
@@ -535,6 +571,9 @@ func runConcShard(jobs []concJob, shard, nshards int, deadline time.Time) {
 		var st sched.Stats
 		var viols []sched.Violation
 		var err error
+		if j.cs.Bound > 0 {
+			j.all, j.bound = false, j.cs.Bound
+		}
 		if j.all {
 			d := time.Now().Add(j.allCap)
 			if d.After(deadline) {
